@@ -383,6 +383,27 @@ func CheckSlash(run *report.Run, router string, nCfg, perCfg int) error {
 	return nil
 }
 
+// WitnessF20: root /a with route GET /{t:*} under CurlyRouter: the OPTIONS filter lists nothing for /a and
+// GET for /a/ (and GET /a/ is a 404).
+func WitnessF20() bool {
+	cfg := routing.Config{Router: "curly", Services: []routing.Service{{ID: 0, Root: "/a", Routes: []routing.RouteDecl{{ID: 0, Method: "GET", Rel: "/{t:*}"}}}}}
+	a, err := Observe(cfg, routing.Req{Path: "/a"})
+	if err != nil {
+		return false
+	}
+	b, err := Observe(cfg, routing.Req{Path: "/a/"})
+	if err != nil {
+		return false
+	}
+	get404 := false
+	for _, p := range b.Probes {
+		if p.Method == "GET" && p.Status == 404 {
+			get404 = true
+		}
+	}
+	return len(a.OptAllow) == 0 && len(b.OptAllow) == 1 && b.OptAllow[0] == "GET" && get404
+}
+
 // WitnessF14: nested literal roots: OPTIONS lists a method that is answered 405.
 func WitnessF14() bool {
 	a := routing.Service{ID: 0, Root: "/a", Routes: []routing.RouteDecl{{ID: 0, Method: "PUT", Rel: "/{p}/{q}"}}}
